@@ -53,6 +53,8 @@ type Obligation struct {
 	x       *Exec
 	Cover   bool // cover query: expected SAT
 	Result  *SolveResult
+	RawScript string // language obligations: a complete SMT-LIB script
+	RawErr    string
 	Clause  *Clause // the contract clause behind an `ensures` obligation (for replay)
 	Case    *Term // case-split hypothesis (already part of the goal's guard); used to specialise the query by substitution
 }
